@@ -98,6 +98,13 @@ func c02Profile(variant string) func(c *sim.RunCtx) {
 	return func(c *sim.RunCtx) {
 		t := c.T.Plan
 		pp := drawPersistPlan(t, variant, t.Chance(1, 3), false)
+		if wconfigPossible(pp.cfg) && t.Chance(1, 2) {
+			// half of the CAS runs are wired by new_blob_access.go itself
+			pp.cfg.WConfig = true
+			if !pp.cfg.Hier {
+				pp.cfg.KeyFormat = 0
+			}
+		}
 		c.Sample["config"] = pp.cfg.String()
 		c.Note("cfg %s", pp.cfg)
 		model := &storeModel{cfg: pp.cfg, objs: pp.objs, byTag: map[int]*upload{}}
@@ -113,7 +120,9 @@ func c02Profile(variant string) func(c *sim.RunCtx) {
 		c.Count("puts_ok", fwd.w.putsOK)
 		c.Count("data_syncs", fwd.w.e.syncDone)
 		c.Count("state_writes", fwd.w.e.stateDone)
-		c.Count("block_releases", fwd.w.e.alloc.Releases)
+		if fwd.w.e.alloc != nil {
+			c.Count("block_releases", fwd.w.e.alloc.Releases)
+		}
 		c.Count("fault_sync_error", m.data.SyncErrs)
 		c.Count("fault_state_dir_error", m.dir.OpErrs)
 		maxPoints, perPoint, maxDepth := tierCaps(c)
